@@ -139,3 +139,16 @@ prop(
     design_ref="§8 C11",
     assumptions=["arc_swap::Cache observes a store on its next load"],
 )
+
+prop(
+    "C15",
+    module="Aquatic.Props.C15",
+    extra_modules=["Aquatic.Props.C15Msg"],
+    technique="Lean 4 proof (identifier visitor accepts exactly 20 characters <= U+00FF; every message round-trips through the serde-derived JSON shape regenerated from the source; untagged variants unambiguous) + differential check of the real to_ws_message / from_ws_message (text and binary) incl. structure-aware mutations",
+    runs=[dict(harness="wsjson", driver="wsjson", quick=dict(cases=300), thorough=dict(cases=30000))],
+    nontrivial=["len>20", "len<20", "char>U+00FF", "with-offers", "with-answer", "in-rejected", "out-rejected", "SR", "ER", "in-scrape"],
+    level_text="Theorems: the 20-byte identifier decoder accepts exactly the strings of 20 characters in U+0000-U+00FF (no shorter, no longer, no other characters) and inverts the encoder; the JSON field names, enum names and untagged variant orders regenerated from crates/ws_protocol equal the WebTorrent protocol's (decide); every incoming and outgoing message, with every optional field present / absent, decodes back to itself from the JSON value serde's derive produces, and no serialised message is accepted by an earlier untagged variant. Tie: real InMessage/OutMessage to_ws_message and from_ws_message on generated messages (SDP with quotes, backslashes, control and non-BMP characters; identifiers with every byte value), identifier strings of length 0..40 and with characters above U+00FF, JSON values with dropped / duplicated / nulled / unknown / retyped fields, text and binary frames.",
+    level_note="The JSON text layer (serde_json writer, simd-json reader, tungstenite frames) is trusted: the model works on JSON values; their agreement with the model is sampled. serde's derive rules (unknown keys ignored, duplicate known key is an error, missing Option is None, untagged = first matching variant) are modelled by hand; the shape they are applied to is regenerated from the source (tools/extract_ws.py).",
+    design_ref="§8 C15",
+    assumptions=["read(write(v)) = v for the JSON text layer (exercised, not proved)"],
+)
